@@ -54,6 +54,20 @@ class Canon(ast.NodeTransformer):
 
     def visit_Compare(self, node: ast.Compare):
         self.generic_visit(node)
+        # (A if C else B) == M   ->   (A == M) if C else (B == M)       (M a plain name / path / literal; an arm that is the literal None compares unequal to an object)
+        if len(node.ops) == 1 and isinstance(node.ops[0], (ast.Eq, ast.NotEq, ast.Is, ast.IsNot)) and isinstance(node.left, ast.IfExp) \
+                and isinstance(node.comparators[0], (ast.Name, ast.Constant, ast.Attribute)) \
+                and not (isinstance(node.left.body, ast.Constant) and isinstance(node.left.orelse, ast.Constant) and isinstance(node.comparators[0], ast.Constant)):
+            import copy
+            op, m_ = node.ops[0], node.comparators[0]
+
+            def arm(a):
+                if isinstance(a, ast.Constant) and a.value is None and not isinstance(m_, ast.Constant) and isinstance(op, (ast.Eq, ast.Is, ast.NotEq, ast.IsNot)):
+                    return ast.copy_location(ast.Constant(value=isinstance(op, (ast.NotEq, ast.IsNot))), a)
+                return self.visit_Compare(ast.copy_location(ast.Compare(left=a, ops=[copy.deepcopy(op)], comparators=[copy.deepcopy(m_)]), node))
+            out = ast.copy_location(ast.IfExp(test=node.left.test, body=arm(node.left.body), orelse=arm(node.left.orelse)), node)
+            ast.fix_missing_locations(out)
+            return out
         if len(node.ops) == 1 and isinstance(node.ops[0], (ast.Eq, ast.NotEq)):
             l, r = node.left, node.comparators[0]
             if _is_const_like(l) and not _is_const_like(r):
@@ -736,6 +750,28 @@ class _JoinOverDisplay(ast.NodeTransformer):
                 and len(node.args) == 1 and not node.keywords and isinstance(node.args[0], (ast.GeneratorExp, ast.ListComp))):
             return node
         g = node.args[0]
+        # ''.join(E(a, b) for a, b in ROWS if C(a, b))  over a literal table (a display of tuples, or a local bound once to one)  ->  the pieces `E(row) if C(row) else ''`
+        if f.value.value == '' and len(g.generators) == 1 and isinstance(g.generators[0].target, ast.Tuple) and all(isinstance(t_, ast.Name) for t_ in g.generators[0].target.elts):
+            it0 = g.generators[0].iter
+            if isinstance(it0, ast.Name) and it0.id in self.local:
+                it0 = self.local[it0.id]
+            rows = _literal_table(it0) if isinstance(it0, (ast.Tuple, ast.List)) else None
+            names0 = [t_.id for t_ in g.generators[0].target.elts]
+            if rows and len(rows) <= 6 and len(rows[0]) == len(names0):
+                import copy
+                vals0: List[ast.AST] = []
+                for row in rows:
+                    m0 = dict(zip(names0, row))
+                    piece = _Subst(m0).visit(copy.deepcopy(g.elt))
+                    conds0 = [_Subst(m0).visit(copy.deepcopy(c)) for c in g.generators[0].ifs]
+                    if conds0:
+                        piece = ast.IfExp(test=conds0[0] if len(conds0) == 1 else ast.BoolOp(op=ast.And(), values=conds0), body=piece, orelse=ast.Constant(value=''))
+                    vals0.append(ast.FormattedValue(value=piece, conversion=-1, format_spec=None))
+                js0 = ast.JoinedStr(values=vals0)
+                for x in ast.walk(js0):
+                    if not hasattr(x, 'lineno'):
+                        ast.copy_location(x, node)
+                return ast.copy_location(js0, node)
         if len(g.generators) != 1 or g.generators[0].ifs or not isinstance(g.generators[0].target, ast.Name):
             return node
         it = g.generators[0].iter
